@@ -498,12 +498,12 @@ static void reused_object_case(Rng& rng, uint64_t index)
 
 static void setup()
 {
-	add_generator("nd_reused_object", ctx().count(600, 200000), reused_object_case);
+	add_generator("nd_reused_object", ctx().count(2400, 200000), reused_object_case);
 	add_generator("d15b_witness", 3, d15b_witness);
 	add_generator("d15_witness", 12, [](Rng& rng, uint64_t i) { convergence_case(rng, false, true, i); });
-	add_generator("one_dimensional", ctx().count(100000, 10000000), case_1d);
-	add_generator("nd_descent", ctx().count(15000, 4500000), case_nd_descent);
-	add_generator("nd_convergence", ctx().count(15000, 4500000), [](Rng& rng, uint64_t i) { convergence_case(rng, true, false, i); });
-	add_generator("nd_small_simplex", ctx().count(2000, 100000), [](Rng& rng, uint64_t i) { convergence_case(rng, false, false, i); });
+	add_generator("one_dimensional", ctx().count(400000, 10000000), case_1d);
+	add_generator("nd_descent", ctx().count(60000, 4500000), case_nd_descent);
+	add_generator("nd_convergence", ctx().count(60000, 4500000), [](Rng& rng, uint64_t i) { convergence_case(rng, true, false, i); });
+	add_generator("nd_small_simplex", ctx().count(8000, 100000), [](Rng& rng, uint64_t i) { convergence_case(rng, false, false, i); });
 }
 VERIF_MAIN("C11", setup)
